@@ -12,26 +12,41 @@ Open Scope Z_scope.
 Definition ids_keys (g : graph) (id : N) : list Z := map nkey (filter (fun n => N.eqb (nid n) id) (gnodes g)).
 Definition touch (g : graph) (o : wop) : list Z :=
   match o with
-  | WCreate _ k => [k]
+  | WCreate _ k _ => [k]
   | WSetProp id _ _ => ids_keys g id
   | WDelNode id => ids_keys g id
   | WCreateEdge a b => ids_keys g a ++ ids_keys g b
   | WDelEdge a b => ids_keys g a ++ ids_keys g b
+  | WAddLabel id _ => ids_keys g id
+  | WDelLabel id _ => ids_keys g id
   end.
 Fixpoint touched (g : graph) (ops : list wop) : list Z :=
   match ops with [] => [] | o :: t => touch g o ++ touched (apply_op g o) t end.
-Definition reads (s : stmt) : list Z :=
-  match s with
-  | SCreate _ => [] | SSyntax => []
-  | SSet _ rows => map fst rows
-  | SDelete _ k => [k] | SMerge k => [k]
-  | SLink a b => [a; b]
-  end.
 Definition disj (a b : list Z) : bool := forallb (fun x => negb (existsb (Z.eqb x) b)) a.
+Definition simple_op (o : wop) : bool :=
+  match o with WCreate _ _ _ | WSetProp _ _ _ | WAddLabel _ _ | WDelLabel _ _ => true | _ => false end.
+(* keys a statement filters on; None: the statement reads every node (scans) *)
+Definition reads (s : stmt) : option (list Z) :=
+  match s with
+  | SCreate _ => Some [] | SCreateNL _ => Some [] | SSyntax => Some []
+  | SSet _ rows => Some (map fst rows)
+  | SDelete _ k => Some [k] | SMerge k => Some [k] | SDeleteRel k => Some [k]
+  | SDeleteIn _ ks => Some ks
+  | SLink a b => Some [a; b]
+  | SScanSet _ _ | SScanLabel _ _ | SScanLoop | SScanDelete _ | SLabelSet _ _ _ => None
+  end.
+Definition reads_ok (s : stmt) (db : graph) (buf : list wop) : bool :=
+  match reads s with
+  | Some ks => disj ks (touched db buf)
+  | None =>
+      (* the unlabelled scan sees staged creates: fine as long as the buffer holds only creates, property and
+         label writes (no deletions, no relationship writes); a labelled scan needs an empty buffer *)
+      (is_scan s && forallb simple_op buf) || match buf with [] => true | _ => false end
+  end.
 Fixpoint footprints_disjoint (atomic : bool) (db : graph) (buf : list wop) (ss : list stmt) : bool :=
   match ss with
   | [] => true
-  | s :: t => disj (reads s) (touched db buf) && footprints_disjoint atomic db (step false atomic db buf s) t
+  | s :: t => reads_ok s db buf && footprints_disjoint atomic db (step false atomic db buf s) t
   end.
 
 Lemma disj_spec : forall a b, disj a b = true -> forall x, In x a -> ~ In x b.
@@ -53,6 +68,15 @@ Proof.
     + apply IH; intros; apply H; cbn; auto.
 Qed.
 
+Lemma filter_map_keep {A} (P : A -> bool) (f : A -> A) (l : list A) :
+  (forall x, In x l -> f x = x \/ (P x = false /\ P (f x) = false)) -> filter P (map f l) = filter P l.
+Proof.
+  induction l as [|x l IH]; intros H; cbn; auto.
+  destruct (H x (or_introl eq_refl)) as [E|[E1 E2]].
+  - rewrite E. destruct (P x); [f_equal|]; apply IH; intros; apply H; cbn; auto.
+  - rewrite E1, E2. apply IH; intros; apply H; cbn; auto.
+Qed.
+
 Lemma in_ids_keys : forall g n, In n (gnodes g) -> In (nkey n) (ids_keys g (nid n)).
 Proof.
   intros g n H. unfold ids_keys. apply in_map. apply filter_In. split; auto. apply N.eqb_refl.
@@ -63,26 +87,24 @@ Lemma op_untouched : forall g o k, ~ In k (touch g o) ->
   with_key k (apply_op g o) = with_key k g /\
   (forall n, In n (with_key k g) -> attached (apply_op g o) (nid n) = attached g (nid n)).
 Proof.
-  intros g o k H. destruct o as [id k'|id p v|id|a b|a b]; cbn [touch apply_op] in *.
+  intros g o k H. destruct o as [id k' labs|id p v|id|a b|a b|id lab|id lab]; cbn [touch apply_op] in *.
   - (* create *) split.
     + unfold with_key. cbn [gnodes]. rewrite filter_app. cbn.
-      destruct (Z.eqb k' k) eqn:E; [apply Z.eqb_eq in E; subst; exfalso; apply H; cbn; auto | apply app_nil_r].
+      destruct (Z.eqb k' k) eqn:E; [apply Z.eqb_eq in E; subst; exfalso; apply H; cbn; auto | cbn; apply app_nil_r].
     + reflexivity.
   - (* set prop *) split; [|reflexivity].
-    unfold with_key. cbn [gnodes].
-    assert (G : forall n, In n (gnodes g) -> N.eqb (nid n) id = true -> Z.eqb (nkey n) k = false).
-    { intros n Hn E. apply Z.eqb_neq. intro K. apply H. apply N.eqb_eq in E. subst. apply in_ids_keys; auto. }
-    induction (gnodes g) as [|n l IH]; cbn; auto.
-    destruct (N.eqb (nid n) id) eqn:E; cbn [nkey].
-    + rewrite (G n (or_introl eq_refl) E). apply IH. intros; apply G; cbn; auto.
-    + destruct (Z.eqb (nkey n) k); [f_equal|]; apply IH; intros; apply G; cbn; auto.
+    unfold with_key. cbn [gnodes]. apply filter_map_keep. intros n Hn.
+    destruct (N.eqb (nid n) id) eqn:E; [right|left; reflexivity].
+    assert (K : Z.eqb (nkey n) k = false).
+    { apply Z.eqb_neq. intro K. apply H. apply N.eqb_eq in E. subst. apply in_ids_keys; auto. }
+    cbn [nkey]. now rewrite K.
   - (* delete node *) split; [|reflexivity].
     unfold with_key. cbn [gnodes]. apply filter_filter_keep.
     intros n Hn K. apply negb_true_iff. apply N.eqb_neq. intro E. apply H.
-    apply Z.eqb_eq in K. subst. apply in_ids_keys; auto.
+    apply andb_true_iff in K. destruct K as [K _]. apply Z.eqb_eq in K. subst. apply in_ids_keys; auto.
   - (* create edge *) split; [reflexivity|].
     intros n Hn. unfold attached. cbn [gedges]. rewrite filter_app. cbn [filter fst snd].
-    unfold with_key in Hn. apply filter_In in Hn. destruct Hn as [Hn K]. apply Z.eqb_eq in K.
+    unfold with_key in Hn. apply filter_In in Hn. destruct Hn as [Hn K]. apply andb_true_iff in K. destruct K as [K _]. apply Z.eqb_eq in K.
     assert (N.eqb a (nid n) = false).
     { apply N.eqb_neq. intro E. apply H. apply in_or_app. left. subst. apply in_ids_keys; auto. }
     assert (N.eqb b (nid n) = false).
@@ -91,11 +113,23 @@ Proof.
   - (* delete edge *) split; [reflexivity|].
     intros n Hn. unfold attached. cbn [gedges]. apply filter_filter_keep.
     intros e _ He. apply negb_true_iff. unfold edge_eqb. cbn [fst snd].
-    unfold with_key in Hn. apply filter_In in Hn. destruct Hn as [Hn K]. apply Z.eqb_eq in K.
+    unfold with_key in Hn. apply filter_In in Hn. destruct Hn as [Hn K]. apply andb_true_iff in K. destruct K as [K _]. apply Z.eqb_eq in K.
     destruct (N.eqb (fst e) a) eqn:E1; cbn; auto. destruct (N.eqb (snd e) b) eqn:E2; auto.
     apply N.eqb_eq in E1, E2. exfalso. apply orb_true_iff in He. destruct He as [He|He]; apply N.eqb_eq in He; apply H; apply in_or_app.
     + left. rewrite <- E1, He, <- K. apply in_ids_keys; auto.
     + right. rewrite <- E2, He, <- K. apply in_ids_keys; auto.
+  - (* add label *) split; [|reflexivity].
+    unfold with_key. cbn [gnodes]. apply filter_map_keep. intros n Hn.
+    destruct (N.eqb (nid n) id) eqn:E; [right|left; reflexivity].
+    assert (K : Z.eqb (nkey n) k = false).
+    { apply Z.eqb_neq. intro K. apply H. apply N.eqb_eq in E. subst. apply in_ids_keys; auto. }
+    cbn [nkey]. now rewrite K.
+  - (* remove label *) split; [|reflexivity].
+    unfold with_key. cbn [gnodes]. apply filter_map_keep. intros n Hn.
+    destruct (N.eqb (nid n) id) eqn:E; [right|left; reflexivity].
+    assert (K : Z.eqb (nkey n) k = false).
+    { apply Z.eqb_neq. intro K. apply H. apply N.eqb_eq in E. subst. apply in_ids_keys; auto. }
+    cbn [nkey]. now rewrite K.
 Qed.
 
 Lemma ops_untouched : forall ops g k, ~ In k (touched g ops) ->
@@ -118,16 +152,32 @@ Proof.
   induction l as [|x l IH]; intros H; cbn; auto. rewrite (H x), IH; cbn; auto. intros; apply H; cbn; auto.
 Qed.
 
+Lemma eval_delete_rel_ext : forall att1 att2 cands, (forall id, In id cands -> att1 id = att2 id) ->
+  eval_delete_rel att1 cands = eval_delete_rel att2 cands.
+Proof.
+  intros att1 att2 cands H. unfold eval_delete_rel.
+  assert (T : filter (fun id => negb match filter (fun e => N.eqb (snd e) id) (att1 id) with [] => true | _ => false end) cands =
+              filter (fun id => negb match filter (fun e => N.eqb (snd e) id) (att2 id) with [] => true | _ => false end) cands).
+  { apply filter_ext_in. intros id Hid. now rewrite (H id Hid). }
+  rewrite T.
+  set (targets := filter (fun id => negb match filter (fun e => N.eqb (snd e) id) (att2 id) with [] => true | _ => false end) cands).
+  assert (Hin : forall id, In id targets -> In id cands) by (intros id Hid; apply filter_In in Hid; tauto).
+  rewrite (flat_map_ext_in (fun id => filter (fun e => N.eqb (snd e) id) (att1 id)) (fun id => filter (fun e => N.eqb (snd e) id) (att2 id)) targets);
+    [|intros id Hid; now rewrite (H id (Hin id Hid))].
+  rewrite (flat_map_ext_in att1 att2 targets); [reflexivity|intros id Hid; apply H; auto].
+Qed.
+
 (* a statement whose read keys the buffer has not touched evaluates the same on both views *)
-Lemma eval_untouched : forall db buf n s,
-  (forall k, In k (reads s) -> ~ In k (touched db buf)) ->
+Lemma eval_untouched : forall db buf n s ks, reads s = Some ks ->
+  (forall k, In k ks -> ~ In k (touched db buf)) ->
   eval (apply_ops db buf) n s = eval db n s.
 Proof.
-  intros db buf n s H. destruct s as [rows|p rows|d k|k1 k2|k|]; cbn [eval reads] in *; auto.
+  intros db buf n s ks R H. destruct s as [rows|p rows|d k|k1 k2|k| |rows|p z|a lab| |d|lab p z|d kl|k]; cbn [eval reads] in *;
+    try discriminate; injection R as <-; auto.
   - (* set *) f_equal. apply flat_map_ext_in. intros r Hr.
     destruct (ops_untouched buf db (fst r)) as [A _]; [apply H; apply in_map; auto|]. now rewrite A.
   - (* delete *)
-    destruct (ops_untouched buf db k) as [A B]; [apply H; cbn; auto|]. rewrite A.
+    destruct (ops_untouched buf db k) as [A B]; [apply H; cbn; auto|]. rewrite A. unfold eval_delete.
     assert (E : flat_map (attached (apply_ops db buf)) (map nid (with_key k db)) = flat_map (attached db) (map nid (with_key k db))).
     { apply flat_map_ext_in. intros id Hid. apply in_map_iff in Hid. destruct Hid as (m & <- & Hm). apply B; auto. }
     now rewrite E.
@@ -136,13 +186,84 @@ Proof.
     destruct (ops_untouched buf db k2) as [B _]; [apply H; cbn; auto|]. now rewrite A, B.
   - (* merge *)
     destruct (ops_untouched buf db k) as [A _]; [apply H; cbn; auto|]. now rewrite A.
+  - (* delete in *)
+    assert (W : flat_map (fun k => with_key k (apply_ops db buf)) kl = flat_map (fun k => with_key k db) kl).
+    { apply flat_map_ext_in. intros k Hk. destruct (ops_untouched buf db k) as [A _]; auto. }
+    rewrite W. unfold eval_delete.
+    assert (E : flat_map (attached (apply_ops db buf)) (map nid (flat_map (fun k => with_key k db) kl)) =
+                flat_map (attached db) (map nid (flat_map (fun k => with_key k db) kl))).
+    { apply flat_map_ext_in. intros id Hid. apply in_map_iff in Hid. destruct Hid as (m & <- & Hm).
+      apply in_flat_map in Hm. destruct Hm as (k & Hk & Hm). destruct (ops_untouched buf db k) as [_ B]; auto. }
+    now rewrite E.
+  - (* delete r, a *)
+    destruct (ops_untouched buf db k) as [A B]; [apply H; cbn; auto|]. rewrite A.
+    apply eval_delete_rel_ext. intros id Hid. apply in_map_iff in Hid. destruct Hid as (m & <- & Hm). apply B; auto.
 Qed.
 
-Lemma step_footprint_eq : forall atomic db buf s, disj (reads s) (touched db buf) = true ->
+
+(* ---- the staged scan view agrees with read-your-writes while the buffer is simple ---- *)
+Lemma map_nid_map : forall (f : node -> node) l, (forall n, nid (f n) = nid n) -> map nid (map f l) = map nid l.
+Proof. intros f l H. rewrite map_map. apply map_ext. exact H. Qed.
+
+Lemma simple_op_ids : forall g o, simple_op o = true ->
+  map nid (gnodes (apply_op g o)) = map nid (gnodes g) ++ map nid (staged [o]) /\ gedges (apply_op g o) = gedges g.
+Proof.
+  intros g o H. destruct o; try discriminate; cbn [apply_op gnodes gedges staged flat_map map app]; split; auto;
+    try rewrite app_nil_r; try (apply map_nid_map; intros n; destruct (N.eqb (nid n) id); reflexivity).
+  rewrite map_app. reflexivity.
+Qed.
+
+Lemma staged_cons : forall o buf, staged (o :: buf) = staged [o] ++ staged buf.
+Proof. intros. unfold staged. cbn [flat_map]. now rewrite app_nil_r. Qed.
+
+Lemma simple_buf_ids : forall buf g, forallb simple_op buf = true ->
+  map nid (gnodes (apply_ops g buf)) = map nid (gnodes g) ++ map nid (staged buf) /\ gedges (apply_ops g buf) = gedges g.
+Proof.
+  induction buf as [|o buf IH]; intros g H.
+  - cbn. now rewrite app_nil_r.
+  - cbn [forallb] in H. apply andb_true_iff in H. destruct H as [H1 H2].
+    unfold apply_ops. cbn [fold_left]. fold (apply_ops (apply_op g o) buf).
+    destruct (IH (apply_op g o) H2) as [A B]. destruct (simple_op_ids g o H1) as [C D].
+    split; [|congruence]. rewrite (staged_cons o buf), map_app, A, C, app_assoc. reflexivity.
+Qed.
+
+Lemma attached_edges : forall g h id, gedges g = gedges h -> attached g id = attached h id.
+Proof. intros. unfold attached. now rewrite H. Qed.
+
+Lemma scan_eval_agrees : forall db buf n s, is_scan s = true -> forallb simple_op buf = true ->
+  eval (scan_view db buf) n s = eval (apply_ops db buf) n s.
+Proof.
+  intros db buf n s Hs Hb. destruct (simple_buf_ids buf db Hb) as [A B].
+  assert (I : map nid (gnodes (scan_view db buf)) = map nid (gnodes (apply_ops db buf))).
+  { unfold scan_view. cbn [gnodes]. now rewrite map_app, A. }
+  assert (E : gedges (scan_view db buf) = gedges (apply_ops db buf)) by (unfold scan_view; cbn [gedges]; congruence).
+  destruct s; try discriminate; cbn [eval].
+  - (* scan set *) f_equal. rewrite <- (map_map nid (fun id => WSetProp id p z)), <- (map_map nid (fun id => WSetProp id p z) (gnodes (apply_ops db buf))). now rewrite I.
+  - (* scan label *) f_equal.
+    rewrite <- (map_map nid (fun id => if add then WAddLabel id lab else WDelLabel id lab)),
+            <- (map_map nid (fun id => if add then WAddLabel id lab else WDelLabel id lab) (gnodes (apply_ops db buf))). now rewrite I.
+  - (* scan loop *) f_equal. rewrite <- (map_map nid (fun id => WCreateEdge id id)), <- (map_map nid (fun id => WCreateEdge id id) (gnodes (apply_ops db buf))). now rewrite I.
+  - (* scan delete *) rewrite I. unfold eval_delete.
+    rewrite (flat_map_ext_in (attached (scan_view db buf)) (attached (apply_ops db buf))); auto.
+    intros. apply attached_edges. exact E.
+Qed.
+
+Lemma scan_view_nil : forall db, scan_view db [] = db.
+Proof. intros [n ns es]. unfold scan_view. cbn. now rewrite app_nil_r. Qed.
+
+Lemma step_footprint_eq : forall atomic db buf s, reads_ok s db buf = true ->
   step false atomic db buf s = step true atomic db buf s.
 Proof.
-  intros atomic db buf s H. unfold step.
-  rewrite (eval_untouched db buf (next_of db buf) s); auto. intros k Hk. eapply disj_spec; eauto.
+  intros atomic db buf s H. unfold step, reads_ok in *. destruct (reads s) as [ks|] eqn:R.
+  - assert (V : view_of false db buf s = db).
+    { unfold view_of. destruct s; cbn in R; try discriminate; reflexivity. }
+    rewrite V. unfold view_of at 1.
+    rewrite (eval_untouched db buf (next_of db buf) s ks R); auto. intros k Hk. eapply disj_spec; eauto.
+  - apply orb_true_iff in H. destruct H as [H|H].
+    + apply andb_true_iff in H. destruct H as [Hs Hb]. unfold view_of. rewrite Hs.
+      now rewrite (scan_eval_agrees db buf (next_of db buf) s Hs Hb).
+    + destruct buf; [|discriminate]. unfold view_of. cbn [apply_ops fold_left].
+      rewrite scan_view_nil. destruct (is_scan s); reflexivity.
 Qed.
 
 Lemma run_footprint_eq : forall atomic db ss buf, footprints_disjoint atomic db buf ss = true ->
@@ -167,3 +288,35 @@ Proof. vm_compute. reflexivity. Qed.
 (* and the witness of the refutation is outside the class *)
 Lemma w24_not_disjoint : footprints_disjoint false db0 [] [w24a; w24b] = false.
 Proof. vm_compute. reflexivity. Qed.
+
+(* non-vacuity for the scan part: label-less and labelled creates, then unlabelled scans that set a property,
+   add two fresh labels, remove one of them and create relationships — inside the theorem *)
+Lemma ss_scan_disjoint : footprints_disjoint false db2 [] ss_scan = true.
+Proof. vm_compute. reflexivity. Qed.
+
+(* ---- the code's commit (label removals after everything else) ---- *)
+Definition no_label_removal (buf : list wop) : bool := forallb (fun o => negb (is_del_label o)) buf.
+Lemma commit_order_id : forall buf, no_label_removal buf = true -> commit_order buf = buf.
+Proof.
+  intros buf H. unfold commit_order, no_label_removal in *.
+  induction buf as [|o buf IH]; [reflexivity|].
+  cbn [forallb] in H. apply andb_true_iff in H. destruct H as [H1 H2].
+  cbn [filter]. rewrite H1. apply negb_true_iff in H1. rewrite H1. cbn [app]. f_equal. apply IH. exact H2.
+Qed.
+
+Theorem M_txn_footprint_ryw : forall db ss, footprints_disjoint false db [] ss = true ->
+  no_label_removal (run false false db ss) = true -> M_txn db ss = txn true false db ss.
+Proof.
+  intros db ss H1 H2. unfold M_txn. rewrite (commit_order_id _ H2). apply (txn_footprint_ryw false db ss H1).
+Qed.
+
+(* label set after label removal in one transaction: the set is lost at commit *)
+Definition ss_label_order : list stmt := [SScanLabel false 0%N; SScanLabel true 0%N].
+Lemma label_order_differs :
+  footprints_disjoint false db2 [] ss_label_order = true /\
+  dump_nodes (M_txn db2 ss_label_order) = [(1, [], [(0%N, 5)])] /\
+  dump_nodes (S_txn db2 ss_label_order) = [(1, [0%N], [(0%N, 5)])].
+Proof. vm_compute. auto. Qed.
+(* removals that are not followed by a re-add of the same label are harmless: ss_scan *)
+Lemma ss_scan_M_agrees : dump_eqb (M_txn db2 ss_scan) (S_txn db2 ss_scan) = true /\ no_label_removal (run false false db2 ss_scan) = false.
+Proof. vm_compute. auto. Qed.
